@@ -437,9 +437,27 @@ def rule_compact(ctx, res):
                 n = term_int(strip_transparent(x[1][2][1]))
                 if n is not None:
                     return ('head' if x[2] == '0' else 'tail', n)
+            # `let (a, b) = chunk.split_at_checked(n)?` / `let Some((a, b)) = chunk.split_at_checked(n)`
+            if isinstance(x, tuple) and len(x) == 3 and x[0] == 'field' and x[2] in ('0', '1') and isinstance(x[1], tuple) and len(x[1]) == 3 and x[1][0] == 'field' and x[1][2] == '0' \
+                    and isinstance(x[1][1], tuple) and x[1][1][0] == 'downcast' and x[1][1][2] in ('Some', 'Continue'):
+                inner = strip_transparent(x[1][1][1])
+                if x[1][1][2] == 'Continue' and isinstance(inner, tuple) and inner[0] == 'call' and inner[1].endswith('Try>::branch'):
+                    inner = strip_transparent(inner[2][0])
+                if isinstance(inner, tuple) and inner[0] == 'call' and inner[1].split('::')[-1] == 'split_at_checked' and inner[1].startswith('core::slice::'):
+                    n = term_int(strip_transparent(inner[2][1]))
+                    if n is not None:
+                        return ('head' if x[2] == '0' else 'tail', n)
         return None
     handles = []
     cbody = ctx.f.body('compact::nodes::deserialize::{closure#0}')
+    if cbody is None:
+        # the per-entry decoder is a named function handed to filter_map / map
+        for p in s.paths:
+            for e in p.effects:
+                if e[0] == 'call' and e[1] and e[1].split('::')[-1] in ('filter_map', 'map') and len(e[2]) == 2:
+                    fv = strip_transparent(e[2][1])
+                    if isinstance(fv, tuple) and fv and fv[0] in ('fn', 'closure') and ctx.f.body(fv[1]) is not None:
+                        cbody = ctx.f.body(fv[1])
     entry_anchor = b.path
     if cbody is not None:
         res.touch(cbody)
@@ -493,12 +511,25 @@ def rule_compact(ctx, res):
     for p in ds.complete_paths():
         # the length the path has established: `len == 6` (comparison) or the arm `6 =>` of a match on the length
         lens = []
+        # `let (ip, port) = src.split_last_chunk::<2>()?`: the port is the trailing chunk, the address everything before it;
+        # a test on `ip.len()` is then a test on the whole length minus the chunk size
+        tail_n = None
+        head_cut = None
+        for e in p.effects:
+            if e[0] == 'call' and e[1] and e[1].split('::')[-1] == 'split_last_chunk' and is_param(strip_transparent(e[2][0]), 'src') and len(e) > 4 and e[4]:
+                m_ = re.search(r'split_last_chunk::<(\d+)>$', e[4].get('full') or '')
+                tail_n = int(m_.group(1)) if m_ else None
         for c in p.conds:
             l = literal(c)
             if l[0] == 'eq' and find_calls(l[1], '::len'):
                 lens.append((term_int(l[2]), l[3]))
             elif l[0] == 'int' and isinstance(l[1], tuple) and l[1][0] == 'call' and l[1][1].split('::')[-1] == 'len' and isinstance(l[2], int):
-                lens.append((l[2], True))
+                arg = strip_transparent(l[1][2][0])
+                if tail_n is not None and find_calls(arg, 'split_last_chunk') and field_chain(arg)[-1:] == ['0']:
+                    lens.append((l[2] + tail_n, True))
+                    head_cut = l[2]
+                else:
+                    lens.append((l[2], True))
         if agg_variant(p.ret) == 'Some':
             v = p.ret[2].get('0')
             be = find_calls(v, 'from_be_bytes')
@@ -508,6 +539,13 @@ def rule_compact(ctx, res):
             for x in term_walk(v):
                 if isinstance(x, tuple) and x and x[0] == 'call' and x[1].split('::')[-1] == 'split_at' and term_int(strip_transparent(x[2][1])) is not None:
                     ends = sorted(set(ends) | {term_int(strip_transparent(x[2][1]))})
+            if head_cut is not None and not ends:
+                # address = the head part converted as a whole, port = from_be_bytes(the trailing chunk)
+                addr_from_head = any(isinstance(x, tuple) and x and x[0] == 'call' and x[1].split('::')[-1] in ('try_from', 'try_into') and find_calls(x, 'split_last_chunk')
+                                     and field_chain(strip_transparent(x[2][0]))[-1:] == ['0'] for x in term_walk(v))
+                port_from_tail = bool(be) and field_chain(strip_transparent(be[0][2][0]))[-1:] == ['1'] and bool(find_calls(be[0], 'split_last_chunk'))
+                if addr_from_head and port_from_tail:
+                    ends = [head_cut]
             true_len = [l for l, t in lens if t]
             fam[true_len[-1] if true_len else None] = (bool(be), ends, 'Ipv4Addr' in str(v) or '[u8; 4]' in str(v), 'Ipv6Addr' in str(v) or '[u8; 16]' in str(v))
     res.check(fam.get(6) == (True, [4], True, False) and fam.get(18) == (True, [16], False, True) and set(fam) == {6, 18}, 'TABLE', db.path,
